@@ -177,6 +177,10 @@ class MyGradUnaryUfunc(MyGradUfunc):
         constant: Optional[bool] = None,
         **kwargs,
     ) -> Tensor:
+        if where is not True and isinstance(where, Tensor):
+            # a tensor-valued mask is used like the array that it holds
+            where = where.data
+
         # it is fastest to check if out is None, which is likely the
         # most common scenario, and this is a very "hot path" in the
         # code
@@ -212,6 +216,10 @@ class MyGradBinaryUfunc(MyGradUfunc):
         dtype: DTypeLikeReals = None,
         constant: Optional[bool] = None,
     ) -> Tensor:
+        if where is not True and isinstance(where, Tensor):
+            # a tensor-valued mask is used like the array that it holds
+            where = where.data
+
         # it is fastest to check if out is None, which is likely the
         # most common scenario, and this is a very "hot path" in the
         # code
